@@ -165,8 +165,8 @@ def identifier_tie(ctx):
     from vtlengine.AST.ASTString import RESERVED_WORDS, _format_reserved_word
     from vtlengine.API import create_ast
     rng = ctx.rng
-    reserved = sorted(RESERVED_WORDS)
-    names = rng.sample(reserved, 40) + ["true", "false", "Me_1", "DS_1", "a b", "DS 1", "x-y", "1A", "1", "12.5", "A.B", "_x", "a", "Z9_", "é",
+    reserved = sorted(w for w, q in RESERVED_WORDS.items() if q == f"'{w}'" and "'" not in w)     # entries such as <INVALID> map to themselves
+    names = rng.sample([w for w in reserved if re.match(r"^[a-z_]+$", w)], 40) + ["true", "false", "Me_1", "DS_1", "a b", "DS 1", "x-y", "1A", "1", "12.5", "A.B", "_x", "a", "Z9_", "é",
                                         "x y z", " lead", "with,comma", "semi;colon", "a+b", "1_", "9z.w", "null", "'q r'", "'calc'"]
     names += ["".join(rng.choice("abXY019_. -+") for _ in range(rng.randrange(1, 8))) for _ in range(80)]
     names = [n for n in dict.fromkeys(names) if ":" not in n and n.strip("'") != "" and "'" not in n.strip("'")]
@@ -181,7 +181,7 @@ def identifier_tie(ctx):
         if "'" in n:
             continue
         try:
-            v = create_ast(f"DS_r := DS_1[calc {real} := 1];").children[0].right.children[0].left.value
+            v = create_ast(f"DS_r := {real};").children[0].right.value
         except Exception as e:  # noqa
             v = f"{type(e).__name__}"
         if v != n:
@@ -189,7 +189,7 @@ def identifier_tie(ctx):
     ctx.oblige(f"K: render_ident_impl = _format_reserved_word on {len(names)} names ({len(reserved)} reserved words in the list)", not bad, str(bad[:4]))
     for n, real, v in rt_bad[:5]:
         ctx.violation("prettify:identifier:does-not-round-trip", f"the name {n!r} is rendered {real!r}, which reads back as {v!r}",
-                      {"script": f"DS_r := DS_1[calc {real} := 1];", "kind": "identifier"})
+                      {"script": f"DS_r := {real};", "kind": "identifier"})
     ctx.cov["identifier_names"] = len(names)
 
 
